@@ -200,3 +200,33 @@ def siblings():
                         for kb in "FLK":
                             for rb in inter[kb]:
                                 yield mrole, [(k1, r1, [(ka, ra, []), (kb, rb, [])])]
+
+
+def nested_expr_siblings():
+    """a function whose variable is captured by an inner def (so that it lives in the helper dict)
+    and that also contains a comprehension/lambda binding or reading the same name with a NESTED
+    comprehension/lambda inside it"""
+    outer_roles = ["assign", "param", "nonlocal_assign"]
+    capturers = [("F", "read", []), ("F", "nonlocal_aug", []), ("C", "read", [])]
+    mids = [("K", "target"), ("L", "param"), ("K", "walrus"), ("K", "read"), ("L", "read"), ("K", "none"), ("L", "none")]
+    inners = [("K", "read"), ("L", "read"), ("K", "iter_read"), ("K", "target"), ("L", "param"), ("L", "param_default"), ("K", "walrus")]
+    for mrole in ("none", "assign"):
+        for r1 in outer_roles:
+            for cap in capturers:
+                for mk, mr in mids:
+                    for ik, ir in inners:
+                        mid = (mk, mr, [(ik, ir, [])])
+                        if r1 == "nonlocal_assign" and (mk, mr) == ("K", "target") and ik == "L":
+                            # CPython 3.12/3.13 bug (comprehension inlining, PEP 709): when the
+                            # iteration variable of a comprehension is declared nonlocal in the
+                            # enclosing function and a lambda inside the comprehension captures
+                            # it, the variable LEAKS into the enclosing function (3.11 and the
+                            # language reference isolate it).  The source itself misbehaves there,
+                            # so these programs are not a valid reference.
+                            continue
+                        if r1 == "nonlocal_assign":
+                            # needs an owner one level up
+                            yield mrole, [("F", "assign", [("F", r1, [cap, mid])])]
+                        else:
+                            yield mrole, [("F", r1, [cap, mid])]
+                            yield mrole, [("F", r1, [mid, cap])]
